@@ -417,7 +417,11 @@ def simulate(doc, log, monitors=True, until=None):
             # substep of the second pass applies its own ramp value again
             w.pass_index = 1
             mon.levels = []
+            n1, c1 = len(eng.history), len(eng.callbacks)
             job, exc = eng.run_job(job=job, **kw)
+            n2, c2 = len(eng.history) - n1, len(eng.callbacks) - c1
+            if exc is None and (n2 != n1 or c2 != c1):
+                raise Violation(PROP, "one-result-per-converged-substep", f"the same job evaluated a second time performed {n2} substeps and yielded {c2} results, the first evaluation {n1} and {c1}", site="Job.evaluate.second-pass")
     if "x0" in kw and kw["x0"] is not w.field and monitors:
         # a separate x0 container is only touched by the job (linked after each converged substep;
         # the items' own container follows every Newton iterate): it holds the last converged
